@@ -87,7 +87,7 @@ pub struct FsOp {
 
 impl FsOp {
     pub fn is_mutating(&self) -> bool {
-        matches!(self.op.as_str(), "mkdir" | "write" | "create" | "fwrite")
+        matches!(self.op.as_str(), "mkdir" | "write" | "create" | "fwrite" | "remove" | "rename")
     }
 }
 
